@@ -342,6 +342,41 @@ def check_c07(tier):
             V.violation(ex, "a warm / closed / evicted server answers differently from a cold twin (not predicted by the model)")
         if res["id"] % 8000 == 0:
             V.sample({"hist": hist})
+    # ---- queries answered BEFORE the workspace scan reaches the files (a document opened and queried right after
+    # initialize): the real scan_workspace then runs over the same on-disk tree; the final answer must be the one
+    # an unqueried server gives after its scan (spec: the scan's result does not depend on earlier queries, since
+    # every Query action leaves the index unchanged)
+    ctx2 = {}
+
+    def gen_prescan():
+        for n, case in enumerate(C.tlc_cases(meta)):
+            if case["kind"] != "query":
+                continue
+            hist = case["hist"]
+            if any(e["t"] == "edit" for e in hist) or len(hist) < 2:
+                continue
+            cur = dict(disk_r)
+            pre = [ev_ops(ev, cur) for ev in hist[:-1]]
+            fin = ev_ops(hist[-1], cur)
+            if fin is None or any(o is None for o in pre):
+                continue
+            ops = pre + [{"op": "scan", "root": root + "/R"}, fin, {"op": "newdb"}, {"op": "scan", "root": root + "/R"}, fin]
+            ctx2[n] = (case, len(pre) + 1, cur)
+            yield {"id": n, "ops": ops}
+
+    for res in C.run_harness(gen_prescan()):
+        case, i_fin, cur = ctx2.pop(res["id"])
+        replayed += 1
+        hist = case["hist"]
+        ev = hist[-1]
+        queried = norm(ev, res["res"][i_fin], cur)
+        unqueried = norm(ev, res["res"][-1], cur)
+        V.count()
+        V.nontriv("prescan" + json.dumps(hist))
+        if queried != unqueried:
+            V.violation({"hist_before_scan": hist[:-1], "final_query": ev, "queried_server": queried, "unqueried_server": unqueried,
+                         "disk": {uni.paths[s]: disk_r[s].text for s in disk_r}},
+                        "queries answered before the workspace scan change an answer given after it")
     if not V.samples:
         V.sample({"note": "see rule"})
     shutil.rmtree(root, ignore_errors=True)
